@@ -1,6 +1,6 @@
 (* C18 -- property theorems only. *)
 From Coq Require Import List Bool Arith.
-From WNTRV Require Import C09.Model C09.Proofs C18.Model C18.Proofs.
+From WNTRV Require Import C09.Model C09.Proofs C18.Model C18.Proofs C18.Total.
 
 (* every labelling the correspondence check accepts assigns positive segment numbers, and two elements (nodes or links)
    share a segment exactly when they can be joined without passing a valve *)
@@ -11,5 +11,10 @@ Proof. exact labels_exact. Qed.
 Theorem C18_component_exact : forall inc elts x S,
   component inc elts x = Some S -> forall y, In y S <-> joinable inc x y.
 Proof. exact component_exact. Qed.
+(* the component computation always answers (its fuel suffices) when the uncut incidences join listed elements: the two theorems above are
+   never vacuous *)
+Theorem C18_component_total : forall inc elts x, (forall s e, In (s, e, true) inc -> In s elts /\ In e elts) -> exists S, component inc elts x = Some S.
+Proof. exact component_total. Qed.
 Print Assumptions C18_labels_exact.
+Print Assumptions C18_component_total.
 Print Assumptions C18_component_exact.
